@@ -610,7 +610,12 @@ def _run_gspec(case, R):
     for bins in case["bins"]:
         R.states.append(("gs", mn, mx, bins, mean, sd))
         R.nontrivial.append(("gs", mn, mx, bins, mean, sd))
-        spec = _cls("GS")(mn, mx, bins, mean, sd)
+        try:
+            spec = _cls("GS")(mn, mx, bins, mean, sd)
+        except Exception as e:  # noqa - valid parameters: the constructor must not fail
+            R.V("%s:construct:%s:raises:%s" % (SHORT["GS"], lab, type(e).__name__), "GaussianSpectrum(%r, %r, %r, mean=%r, stddev=%r) raised" % (mn, mx, bins, mean, sd),
+                "a spectrum object", "%s: %s" % (type(e).__name__, str(e)[:120]))
+            continue
         _check_spectrum(R, SHORT["GS"], "gaussian", spec, mn, mx, bins, mean, sd, lab)
     return ("gs", lab, len(R.viol))
 
